@@ -43,25 +43,26 @@ type poolFont struct {
 }
 
 // category is one stratum of the pool; the smallest corpus file (ties: by path) whose table
-// directory satisfies want and whose cmap maps at least minRunes runes (and needRune, if set) is
-// chosen.
+// directory satisfies want, whose cmap maps at least minRunes runes (and needRune, if set) and
+// which has at least minGSUB / minGPOS lookups is chosen: small, but with real layout tables.
 type category struct {
-	kind     string
-	want     func(tr corpus.Traits) bool
-	minRunes int
-	needRune rune
+	kind             string
+	want             func(tr corpus.Traits) bool
+	minRunes         int
+	needRune         rune
+	minGSUB, minGPOS int
 }
 
 var categories = []category{
-	{kind: "truetype", minRunes: 50, want: func(tr corpus.Traits) bool {
+	{kind: "truetype", minRunes: 50, minGSUB: 5, minGPOS: 3, want: func(tr corpus.Traits) bool {
 		return tr.Glyf && !tr.Fvar && !tr.Morx && !tr.Bitmap && !tr.CFF && !tr.CFF2 && tr.GSUB && tr.GPOS
 	}},
-	{kind: "cff", minRunes: 100, want: func(tr corpus.Traits) bool { return tr.CFF && tr.GSUB && tr.GPOS }},
+	{kind: "cff", minRunes: 100, minGSUB: 5, minGPOS: 1, want: func(tr corpus.Traits) bool { return tr.CFF && tr.GSUB && tr.GPOS }},
 	{kind: "cff2", minRunes: 2, want: func(tr corpus.Traits) bool { return tr.CFF2 && tr.Fvar }},
-	{kind: "variable", minRunes: 100, want: func(tr corpus.Traits) bool { return tr.Glyf && tr.Fvar && tr.GSUB && tr.GPOS }},
-	{kind: "aat", minRunes: 30, want: func(tr corpus.Traits) bool { return tr.Morx && tr.Glyf }},
+	{kind: "variable", minRunes: 100, minGSUB: 5, minGPOS: 3, want: func(tr corpus.Traits) bool { return tr.Glyf && tr.Fvar && tr.GSUB && tr.GPOS }},
+	{kind: "aat", minRunes: 100, want: func(tr corpus.Traits) bool { return tr.Morx && tr.Glyf }},
 	{kind: "bitmap", minRunes: 30, want: func(tr corpus.Traits) bool { return tr.Bitmap }},
-	{kind: "indic", minRunes: 50, needRune: 0x0915, want: func(tr corpus.Traits) bool { return tr.Glyf && !tr.Fvar && tr.GSUB && tr.GPOS }},
+	{kind: "indic", minRunes: 50, needRune: 0x0915, minGSUB: 5, minGPOS: 3, want: func(tr corpus.Traits) bool { return tr.Glyf && !tr.Fvar && tr.GSUB && tr.GPOS }},
 }
 
 const maxPoolFileSize = 400 << 10
@@ -211,7 +212,7 @@ func standardPool() ([]*poolFont, error) {
 					continue
 				}
 			}
-			if countRunes(ft, c.minRunes) < c.minRunes {
+			if countRunes(ft, c.minRunes) < c.minRunes || len(ft.GSUB.Lookups) < c.minGSUB || len(ft.GPOS.Lookups) < c.minGPOS {
 				continue
 			}
 			already := false
